@@ -10,6 +10,7 @@ geometric are deliberately outside the domain: the evaluator never touches geome
 from __future__ import annotations
 
 import ast
+from fractions import Fraction
 from collections import deque
 from typing import Any, Callable, Dict, List, Optional, Tuple
 
@@ -663,6 +664,10 @@ class Evaluator:
             return not self.truth(v, n)
         if isinstance(n.op, ast.USub) and isinstance(v, int):
             return -v
+        if isinstance(n.op, (ast.USub, ast.UAdd)) and isinstance(v, float) and self.float_arith:
+            return -v if isinstance(n.op, ast.USub) else v
+        if isinstance(n.op, ast.USub) and self.extra_types and isinstance(v, self.extra_types) and hasattr(v, "__neg__"):
+            return -v
         if self.opaque_arith and isinstance(v, (Sym, float)):
             return Sym("geom")
         if isinstance(n.op, ast.UAdd) and isinstance(v, int):
@@ -757,9 +762,14 @@ class Evaluator:
             elif isinstance(op, ast.IsNot):
                 ok = left is not right
             else:
+                # exact numbers of an abstract domain (sa/poly.py Rat with constant value) order like numbers
+                if hasattr(left, "as_number"):
+                    left = left.as_number()
+                if hasattr(right, "as_number"):
+                    right = right.as_number()
                 if isinstance(left, (set, frozenset)) and isinstance(right, (set, frozenset)):
                     pass  # subset / superset tests
-                elif not (isinstance(left, (int, float)) and isinstance(right, (int, float))):
+                elif not (isinstance(left, (int, float, Fraction)) and isinstance(right, (int, float, Fraction))):
                     raise NotEvaluable(f"ordering comparison on non-numbers: {ast.unparse(n)[:60]}")
                 ok = {ast.Lt: left < right, ast.LtE: left <= right, ast.Gt: left > right, ast.GtE: left >= right}[type(op)]
             if not ok:
@@ -790,6 +800,11 @@ class Evaluator:
         if isinstance(base, Obj) and base._cls is not None and self.repo is not None and self.repo.find_method(base._cls, "__getitem__"):
             return self.call_method(base, "__getitem__", [self._slice(n.slice)])
         key = self._slice(n.slice)
+        if self.extra_types and isinstance(base, self.extra_types) and hasattr(base, "c") and isinstance(key, int):
+            try:
+                return base.c[key]  # a component of a vector of an abstract domain (sa/poly.py Vec)
+            except IndexError as err:
+                raise Raised("IndexError") from err
         try:
             if isinstance(base, deque):
                 base = list(base)
